@@ -278,7 +278,6 @@ func (r Rules) String() string {
 	return strings.Join(s, "+")
 }
 
-
 type oracle struct {
 	rules Rules
 	cache map[string]*regexp.Regexp
